@@ -1145,12 +1145,20 @@ where
         // Drop the most significant bits up to the desired length, but make sure
         // they encode 0.
         let nb_bits = nb_bits.unwrap_or(K::NUM_BITS as usize);
+        if nb_bits > bits.len() {
+            // More bits requested than the limbs provide (e.g. 8 * 48 = 384 bytes-aligned bits of a
+            // 381-bit field in `assigned_to_le_bytes`): the extra most significant bits are zero.
+            let zero: AssignedBit<F> = self.native_gadget.assign_fixed(layouter, false)?;
+            bits.resize(nb_bits, zero);
+        }
         bits[nb_bits..]
             .iter()
             .try_for_each(|byte| self.native_gadget.assert_equal_to_fixed(layouter, byte, false))?;
         let bits = bits[0..nb_bits].to_vec();
         if enforce_canonical && nb_bits >= K::NUM_BITS as usize {
-            let canonical = self.is_canonical(layouter, &bits)?;
+            // `is_canonical` answers `false` for more than NUM_BITS bits: test the NUM_BITS least
+            // significant ones (the others are zero, either asserted or padded above).
+            let canonical = self.is_canonical(layouter, &bits[..K::NUM_BITS as usize])?;
             self.assert_equal_to_fixed(layouter, &canonical, true)?;
         }
         Ok(bits)
